@@ -84,6 +84,9 @@ type Contract struct {
 	Opaque    map[string][]string // callee name -> ensures labels kept at its call sites
 	Dispatch  map[string][]string // interface type -> concrete types to split dynamic calls on
 	Decreases ast.Expr
+	// propagates <callee> [unless <pred(e)>]: whenever a call of <callee> made by this function returns a non-nil
+	// error e (not excused by the predicate), this function returns a non-nil error. Label = callee name.
+	Propagates []Clause
 	Iface     bool
 	Src       string
 	Line      int
@@ -144,7 +147,7 @@ func newContractSet() *ContractSet {
 var clauseKeywords = map[string]bool{
 	"func": true, "interface": true, "extern": true, "type": true, "ghost": true, "spec": true, "lemma": true, "syncmap": true,
 	"props": true, "requires": true, "ensures": true, "modifies": true, "nopanic": true, "maypanic": true,
-	"inline": true, "assumed": true, "pure": true, "use": true, "deterministic": true, "noworld": true, "opaque": true, "dispatch": true, "detargs": true, "loop": true, "range": true, "callsite": true, "decreases": true,
+	"inline": true, "assumed": true, "pure": true, "use": true, "deterministic": true, "noworld": true, "opaque": true, "dispatch": true, "detargs": true, "loop": true, "range": true, "callsite": true, "decreases": true, "propagates": true,
 }
 
 // ghostWitnessDecl: witness arrays declared by `range n ghost` clauses (name -> key type, value type; string or int)
@@ -514,6 +517,32 @@ func (c *Contract) addClause(kw, rest string) error {
 			return err
 		}
 		c.Ensures = append(c.Ensures, Clause{Label: label, Expr: x, Src: e, Props: props})
+	case "propagates":
+		e := rest
+		var props []string
+		if strings.HasPrefix(e, "[") {
+			if j := strings.Index(e, "]"); j > 0 {
+				props = strings.Fields(e[1:j])
+				e = strings.TrimSpace(e[j+1:])
+			}
+		}
+		f := strings.Fields(e)
+		if len(f) == 0 {
+			return fmt.Errorf("propagates needs a callee name")
+		}
+		cl := Clause{Label: f[0], Props: props, Src: e}
+		if len(f) > 1 {
+			if f[1] != "unless" {
+				return fmt.Errorf("expected: propagates <callee> [unless <predicate over e>]")
+			}
+			u := strings.TrimSpace(strings.TrimPrefix(strings.TrimSpace(strings.TrimPrefix(e, f[0])), "unless"))
+			x, err := parser.ParseExpr(u)
+			if err != nil {
+				return err
+			}
+			cl.Expr = x
+		}
+		c.Propagates = append(c.Propagates, cl)
 	case "modifies":
 		x, err := parser.ParseExpr("f(" + rest + ")")
 		if err != nil {
